@@ -1004,6 +1004,11 @@ func Replay(r *fw.Run, raw json.RawMessage) {
 		if err == nil && refPath(t) != c.Path {
 			r.Violation("parse", fmt.Sprintf("accepted %q as %+v", c.Path, t), c)
 		}
+	case "overlap":
+		lg, _ := tlogx.Build(tlogx.Pattern(0, 64))
+		overlapReads(r, lg)
+	case "huge":
+		hugeTiles(r)
 	case "reuse":
 		lg, _ := tlogx.Build(tlogx.Pattern(0, max(c.N, 1)))
 		rd := &reader{lg: lg, n: c.N, h: c.H}
